@@ -18,6 +18,7 @@ import (
 	"github.com/ipfs/go-graphsync"
 	"github.com/ipfs/go-graphsync/ipldutil"
 	gsmsg "github.com/ipfs/go-graphsync/message"
+	"github.com/ipfs/go-graphsync/panics"
 	"github.com/ipfs/go-graphsync/responsemanager/hooks"
 	"github.com/ipfs/go-graphsync/responsemanager/responseassembler"
 )
@@ -46,6 +47,8 @@ type ResponseTask struct {
 	Traverser      ipldutil.Traverser
 	Signals        ResponseSignals
 	ResponseStream ResponseStream
+	// PanicCallback is told about panics recovered while executing this task
+	PanicCallback panics.CallBackFn
 }
 
 // ResponseSignals are message channels to communicate between the manager and the QueryExecutor
@@ -102,7 +105,7 @@ func (qe *QueryExecutor) ExecuteTask(_ context.Context, pid peer.ID, task *peert
 	defer span.End()
 
 	log.Debugw("beginning response execution", "id", rt.Request.ID(), "peer", pid.String(), "root_cid", rt.Request.Root().String())
-	err := qe.executeQuery(ctx, pid, rt)
+	err := qe.executeQuerySafely(ctx, pid, rt)
 	if err != nil {
 		span.RecordError(err)
 		if _, isPaused := err.(hooks.ErrPaused); !isPaused {
@@ -112,6 +115,21 @@ func (qe *QueryExecutor) ExecuteTask(_ context.Context, pid peer.ID, task *peert
 	qe.manager.FinishTask(task, pid, err)
 	log.Debugw("finishing response execution", "id", rt.Request.ID(), "peer", pid.String(), "root_cid", rt.Request.Root().String())
 	return false
+}
+
+// executeQuerySafely runs executeQuery and turns a panic raised on this
+// goroutine by user supplied code (storage functions, hooks) into a failure of
+// this response only
+func (qe *QueryExecutor) executeQuerySafely(ctx context.Context, p peer.ID, rt ResponseTask) (err error) {
+	defer func() {
+		if panicErr := panics.MakeHandler(rt.PanicCallback)(recover()); panicErr != nil {
+			err = rt.ResponseStream.Transaction(func(rb responseassembler.ResponseBuilder) error {
+				rb.FinishWithError(graphsync.RequestFailedUnknown)
+				return panicErr
+			})
+		}
+	}()
+	return qe.executeQuery(ctx, p, rt)
 }
 
 func (qe *QueryExecutor) executeQuery(
